@@ -34,7 +34,6 @@ CellsOf(sl) ==
     inf |-> [j \in 1..NInf(sl) |-> MkInf(j, cdv[j])],
     hop |-> [k \in 1..Total(sl) |-> MkHop(k, al)]] :
      ci \in 0..3, ch \in ChOf(sl), cdv \in [1..NInf(sl) -> BOOLEAN], al \in ALS}
-Cells == UNION {CellsOf(sl) : sl \in Shapes}
 
 Ops == {"ing_int", "ing_ext", "egr"}
 ScriptList == <<[cur |-> TRUE, seg |-> TRUE, nxt |-> TRUE], [cur |-> FALSE, seg |-> TRUE, nxt |-> TRUE],
@@ -47,7 +46,8 @@ Apply(q, op, v) ==
     [] op = "ing_ext" -> Ingress(q, FALSE, VH, VS)
     [] op = "egr" -> Egress(q, VH)
 
-Init == /\ p \in Cells /\ ch0 = p.ch /\ moves = 0 /\ lastop = "init" /\ lastk = "ok" /\ n = 0
+Init == /\ \E sl \in Shapes : p \in CellsOf(sl)
+        /\ ch0 = p.ch /\ moves = 0 /\ lastop = "init" /\ lastk = "ok" /\ n = 0
 
 Call(op, v) ==
   /\ n < Depth
